@@ -348,7 +348,9 @@ class Gen:
         if k < 0.35 or not have:
             name, kind, ms = r.choice(self.structs)
             x = self.fresh("s")
-            out.append(("decl", x, ("struct", name), ("slit", name, [(m, self.expr(t, senv, 1)) for m, t in ms])))
+            fields = [(m, self.expr(t, senv, 1)) for m, t in ms]
+            if r.random() < 0.5: r.shuffle(fields)     # members may be given in any order
+            out.append(("decl", x, ("struct", name), ("slit", name, fields)))
             env.append((x, ("struct", name)))
             m, t = r.choice(ms)
             out.append(("print", [(("mem", ("var", x), m), t), ("str", b"\n")]))
